@@ -5,6 +5,7 @@ import random
 IDENT_PLAIN = "abcdefghijklmnopqrstuvwxyzABCDEFGHIJKLMNOPQRSTUVWXYZ-_"
 IDENT_HOSTILE = list("'\\[]()>|=!^.:#0123456789*é中") + ["\n", "\r", "\t", "\U0001f600", "=>", "^="]
 STRING_HOSTILE = list("'\\[]()>|=!^.:# \"<&;") + ["\n", "\r", "\t", " ", " ", "\U0001f600", "=>", "é"]
+STRING_HOSTILE.append("data:;base64,")
 WS = " \t\r\x0b\x0c\x1c\x1d\x1e\x1f\x85\xa0                　"
 
 
